@@ -264,6 +264,53 @@ def run(tier, config):
         # loop exits: guard exit + return on Ok + return on other error
         exits = {(x, s) for x in body_blocks for s in b.succ[x] if s not in body_blocks}
         rep.add("gamedig::utils::retry_on_timeout|exits", "C10:D3", len(exits) >= 3, "%d loop exits (guard, first Ok, non-timeout error)" % len(exits), f["span"])
+    # D6 no silent discard: a loop that receives must record something from every datagram it accepts before it goes round
+    # again (or answer it with a send). An iteration that receives, inspects the datagram and simply continues turns a
+    # malformed reply into "nothing received": the helper then sees a timeout and re-attempts the request.
+    from .. import tracespec as TS, sym as SY, units as U
+    units, g2 = TS.all_units(c)
+    seen_loops = {}
+    for prop in ("C02", "C03", "C04", "C05", "C06", "C07", "C16"):
+        for p_ in U.select(c, prop):
+            if not g2.reaches(p_, SY.IO_PRED):
+                continue
+            sy = SY.Sym(c, lambda q: q in units, g2)
+            sy.run_unit(c.fn(p_))
+            for lp in sy.loop_log:
+                at = lp[6]
+                if at in seen_loops:
+                    continue
+                names = []
+                nexts = []
+
+                def walk(es, top=True):
+                    for e in es:
+                        if e[0] == "op":
+                            names.append(sy.ops[e[1]].name)
+                        elif e[0] == "next":
+                            nexts.append(e)
+                        elif e[0] == "if":
+                            walk(e[2]); walk(e[3])
+                        elif e[0] == "guard":
+                            walk(e[2])
+                        elif e[0] == "match":
+                            for arm in e[2]:
+                                walk(arm[2])
+                        elif e[0] == "scope":
+                            walk(e[2])
+                walk(lp[5])
+                if not any(n == "socket.receive" or (n.startswith("call ") and "receive" in n.split("::")[-1]) for n in names):
+                    continue
+                has_send = any(n == "socket.send" for n in names)
+                silent = [e for e in nexts if not e[2]]
+                seen_loops[at] = (p_, has_send, len(nexts), len(silent))
+    for at, (p_, has_send, n_next, n_silent) in sorted(seen_loops.items(), key=lambda x: str(x[0])):
+        ok = has_send or n_silent == 0
+        rep.add("receive-loop@%s|no-silent-discard" % (c.fn(p_)["name"] + ":" + str(at).rsplit("/", 1)[-1].split(":")[0]), "C10:D6", ok,
+                "receive loop (seen from %s): %d way(s) round the loop, %d of them without recording anything from the datagram%s" % (
+                    p_.split("gamedig::")[-1], n_next, n_silent, "; the iteration also sends (exchange loop)" if has_send else ""), at)
+    if config == "baseline":
+        rep.floor("receive loops", len(seen_loops), 4)
     # D4 who constructs the two timeout-class kinds
     n_cons = 0
     for f, bi, v, at in Q.enum_values(c, "gamedig::errors::kind::GDErrorKind"):
